@@ -50,6 +50,10 @@ type Pipe struct {
 	lastAt   int64
 	Window   int // 0 = unlimited
 	buffered int
+	// FailAt (-1 = none): see Conn.Write. Failed reports that it happened.
+	FailAt  int64
+	FailErr error
+	Failed  bool
 	// OnWrite, when set, is called with every buffer handed to Write on this
 	// direction, before any of it is delivered (and before the writer may block on
 	// a full window). It runs in the writing task and must only touch atomics,
@@ -190,8 +194,8 @@ type NetCfg struct {
 // NewConnPair creates a connected pair (a,b). Bytes written to a are read
 // from b and vice versa. cfgAB applies to the a->b direction.
 func (s *Sim) NewConnPair(nameA, nameB string, cfgAB, cfgBA NetCfg) (*Conn, *Conn) {
-	ab := &Pipe{Name: nameA + ">" + nameB, s: s, FlipAt: -1}
-	ba := &Pipe{Name: nameB + ">" + nameA, s: s, FlipAt: -1}
+	ab := &Pipe{Name: nameA + ">" + nameB, s: s, FlipAt: -1, FailAt: -1}
+	ba := &Pipe{Name: nameB + ">" + nameA, s: s, FlipAt: -1, FailAt: -1}
 	ab.apply(cfgAB)
 	ba.apply(cfgBA)
 	a := &Conn{s: s, Name: nameA, rd: ba, wr: ab}
@@ -272,6 +276,18 @@ func (c *Conn) Write(b []byte) (int, error) {
 	if len(b) == 0 {
 		return 0, nil
 	}
+	// injected transport failure: the Write that crosses stream offset FailAt gets
+	// only the bytes before it onto the wire and returns FailErr (once)
+	var failErr error
+	if p.FailAt >= 0 && p.FailAt >= p.BytesW && p.FailAt < p.BytesW+int64(len(b)) {
+		b = b[:p.FailAt-p.BytesW]
+		failErr = p.FailErr
+		p.FailAt = -1
+		p.Failed = true
+		if len(b) == 0 {
+			return 0, failErr
+		}
+	}
 	c.Writes++
 	s.Nev++
 	p.capture(b, s.Nev)
@@ -350,8 +366,18 @@ func (c *Conn) Write(b []byte) (int, error) {
 	if t != nil && !s.abort {
 		s.yieldPoint(-10)
 	}
-	return len(b), nil
+	return len(b), failErr
 }
+
+// ErrWriteTimeout is an injected transient transport failure (a write deadline
+// that expired half-way): Timeout() and Temporary() report true.
+var ErrWriteTimeout error = timeoutErr{}
+
+type timeoutErr struct{}
+
+func (timeoutErr) Error() string   { return "simnet: write timeout (injected)" }
+func (timeoutErr) Timeout() bool   { return true }
+func (timeoutErr) Temporary() bool { return true }
 
 //go:norace
 func (c *Conn) Read(b []byte) (int, error) {
